@@ -192,6 +192,17 @@ def Fn.run (f : Fn) (args : List Nat) (arrs : List Bytes) : Out Bytes :=
   | .ok env => f.result.get env
   | .panic p => .panic p
 
+/-- a translated function that returns a number -/
+structure FnNat where
+  body : Stmt
+  result : Expr
+deriving Repr, DecidableEq
+
+def FnNat.run (f : FnNat) (args : List Nat) (arrs : List Bytes) : Out Nat :=
+  match f.body.exec ⟨args, arrs⟩ with
+  | .ok env => f.result.eval env
+  | .panic p => .panic p
+
 /-- the outcome with the text of a panic message forgotten -/
 def forget {α} : Out α → Option α
   | .ok a => some a
